@@ -194,8 +194,211 @@ def gen_HashConsts():
     return "".join(out), {x.path: x.digest for x in (dh, cv, mc, im, mn, ag, mm)}
 
 
+# ---------------------------------------------------------------------------
+TYPE_W = {"MerkleHash": 32, "HMACKey": 32, "u32": 4, "u64": 8, "u8": 1}
+
+
+def struct_fields(src, name):
+    m = src.one(r"pub struct %s \{([^}]*)\}" % re.escape(name), "struct " + name)
+    fields = []
+    for f in m.group(1).split(","):
+        f = re.sub(r"#\[[^\]]*\]", "", f).strip()
+        if not f:
+            continue
+        fm = re.fullmatch(r"(?:pub )?(\w+)\s*:\s*(.+)", f)
+        if not fm:
+            raise TranslateError("struct %s: cannot parse field %r" % (name, f))
+        ty = fm.group(2).strip()
+        am = re.fullmatch(r"\[u64; (\d+)\]", ty)
+        if am:
+            fields.append((fm.group(1), "u64s", 8 * int(am.group(1))))
+        elif ty == "[u8; 32]":
+            fields.append((fm.group(1), "hash", 32))
+        elif ty in TYPE_W:
+            fields.append((fm.group(1), "hash" if TYPE_W[ty] == 32 else ty, TYPE_W[ty]))
+        else:
+            raise TranslateError("struct %s: unsupported field type %r" % (name, ty))
+    return fields
+
+
+def impl_fn_body(src, struct, fn):
+    """Body of fn inside the (first) `impl <struct> {` block."""
+    m = re.search(r"\bimpl %s \{" % re.escape(struct), src.flat)
+    if not m:
+        raise TranslateError("impl %s not found" % struct)
+    sub = src.flat[m.end():]
+    fm = re.search(r"\bfn %s\b" % re.escape(fn), sub)
+    if not fm:
+        raise TranslateError("fn %s::%s not found" % (struct, fn))
+    i = sub.find("{", fm.end())
+    # skip the signature: find '{' after the return type (first '{' following ')' ... '->' ... )
+    depth = 0
+    k = i
+    while k < len(sub):
+        if sub[k] == "{":
+            depth += 1
+        elif sub[k] == "}":
+            depth -= 1
+            if depth == 0:
+                return sub[i + 1:k]
+        k += 1
+    raise TranslateError("unbalanced braces in %s::%s" % (struct, fn))
+
+
+def codec_defs(src, name, out, tag_field=None):
+    """Generate ser_<name>/de_<name> from the write_*/read_* call sequences of serialize/deserialize."""
+    fields = struct_fields(src, name)
+    fnames = [f[0] for f in fields]
+    ftype = {f[0]: f[1] for f in fields}
+    fw = {f[0]: f[2] for f in fields}
+    size = sum(f[2] for f in fields)
+    ser = impl_fn_body(src, name, "serialize")
+    des = impl_fn_body(src, name, "deserialize")
+    writes = re.findall(r"(?:write_(hash|u32|u64|u64s)\((?:&mut )?writer, &?self\.(\w+)\)\?|writer\.write_all\(&(MDB_SHARD_HEADER_TAG)\)\?)", ser)
+    wseq = []
+    for kind, f, tag in writes:
+        if tag:
+            wseq.append((tag_field, "tag"))
+        else:
+            if f not in ftype or ftype[f] != kind:
+                raise TranslateError("%s::serialize writes %s as %s" % (name, f, kind))
+
+            wseq.append((f, kind))
+    if sorted(x[0] for x in wseq) != sorted(fnames):
+        raise TranslateError("%s::serialize does not write every field exactly once: %r" % (name, wseq))
+    # reads, in order of appearance
+    rseq = []
+    for m in re.finditer(r"(?:(\w+): read_(hash|u32|u64)\(reader\)\?|obj\.(\w+) = read_(u64)\(reader\)\?|let (\w+) = read_(u64)\(reader\)\?|read_(u64s)\(reader, &mut obj\.(\w+)\)\?|reader\.read_exact\(&mut (tag)\)\?)", des):
+        g = m.groups()
+        if g[0]:
+            rseq.append((g[0], g[1]))
+        elif g[2]:
+            rseq.append((g[2], g[3]))
+        elif g[4]:
+            rseq.append((g[4], g[5]))
+        elif g[6]:
+            rseq.append((g[7], g[6]))
+        elif g[8]:
+            rseq.append((tag_field, "tag"))
+    defaults = re.findall(r"(\w+): Default::default\(\)", des)
+    for f, k in rseq:
+        if f not in ftype:
+            raise TranslateError("%s::deserialize reads unknown field %s" % (name, f))
+    if sorted([x[0] for x in rseq] + defaults) != sorted(fnames):
+        raise TranslateError("%s::deserialize does not produce every field exactly once: reads=%r defaults=%r" % (name, rseq, defaults))
+    whole = "read_exact(&mut v[..])" in des   # the whole struct is read first, then parsed from the buffer
+    def enc(f, kind):
+        return {"hash": f, "tag": f, "u32": "u32 %s" % f, "u64": "u64 %s" % f, "u64s": "u64s %s" % f}[kind]
+    args = " ".join("(%s : %s)" % (f, "list N" if ftype[f] in ("hash", "u64s") else "N") for f in fnames)
+    out.append("Definition %s_SIZE : nat := %d.\n" % (name, size))
+    out.append("Definition ser_%s %s : list N :=\n  %s.\n" % (name, args, " ++ ".join(enc(f, k) for f, k in wseq)))
+    # parser: consume in read order; unread (defaulted) fields are 0 / zeros
+    lines = []
+    off = 0
+    vals = {}
+    for f, k in rseq:
+        w = fw[f]
+        sl = "firstn %d (skipn %d bs)" % (w, off)
+        vals[f] = sl if k in ("hash", "tag") else ("de_u64s %d (%s)" % (w // 8, sl) if k == "u64s" else "le_val (%s)" % sl)
+        off += w
+    for f in defaults:
+        vals[f] = "repeat 0 %d%%nat" % (fw[f] // 8) if ftype[f] == "u64s" else ("repeat 0 32%nat" if ftype[f] == "hash" else "0")
+    consumed = size if whole else off
+    tup = ", ".join(vals[f] for f in fnames)
+    out.append("Definition de_%s (bs : list N) : option ((%s) * list N) :=\n  if has %d bs then Some ((%s), skipn %d bs) else None.\n\n"
+               % (name, " * ".join("list N" if ftype[f] in ("hash", "u64s") else "N" for f in fnames), consumed, tup, consumed))
+    return fields
+
+
+def gen_ShardLayout():
+    sf = Src(os.path.join(REPO, "mdb_shard/src/shard_format.rs"))
+    fs = Src(os.path.join(REPO, "mdb_shard/src/file_structs.rs"))
+    cs = Src(os.path.join(REPO, "mdb_shard/src/cas_structs.rs"))
+    isrc = Src(os.path.join(REPO, "mdb_shard/src/interpolation_search.rs"))
+    ut = Src(os.path.join(REPO, "mdb_shard/src/utils.rs"))
+    out = ["From Coq Require Import NArith Bool List.\nImport ListNotations.\nFrom XetModel Require Import Base.Codec.\nOpen Scope N_scope.\n\n"]
+    m = sf.one(r"const MDB_SHARD_HEADER_TAG: \[u8; 32\] = \[([^\]]*)\];", "header tag")
+    tag = []
+    for v in m.group(1).split(","):
+        v = v.strip()
+        if not v:
+            continue
+        bm = re.fullmatch(r"b'(.)'", v)
+        tag.append(ord(bm.group(1)) if bm else int(v))
+    if len(tag) != 32:
+        raise TranslateError("header tag has %d bytes" % len(tag))
+    out.append("Definition MDB_SHARD_HEADER_TAG : list N := [%s].\n" % "; ".join(map(str, tag)))
+    for nm in ["MDB_SHARD_HEADER_VERSION", "MDB_SHARD_FOOTER_VERSION"]:
+        out.append("Definition %s : N := %d.\n" % (nm, rust_int(plain_const(sf, nm))))
+    for nm, src in [("MDB_DEFAULT_FILE_FLAG", fs), ("MDB_FILE_FLAG_WITH_VERIFICATION", fs), ("MDB_FILE_FLAG_WITH_METADATA_EXT", fs),
+                    ("MDB_FILE_FLAG_VERIFICATION_MASK", fs), ("MDB_FILE_FLAG_METADATA_EXT_MASK", fs), ("MDB_DEFAULT_CAS_FLAG", cs)]:
+        out.append("Definition %s : N := %d.\n" % (nm, rust_int(plain_const(src, nm))))
+    for nm in ["READ_WINDOW_SIZE", "EXPECTED_MAX_NUM_DUPLICATES"]:
+        out.append("Definition %s : N := %d.\n" % (nm, rust_int(plain_const(isrc, nm))))
+    out.append("\n")
+    codec_defs(sf, "MDBShardFileHeader", out, tag_field="tag")
+    codec_defs(sf, "MDBShardFileFooter", out)
+    codec_defs(fs, "FileDataSequenceHeader", out)
+    codec_defs(fs, "FileDataSequenceEntry", out)
+    codec_defs(fs, "FileVerificationEntry", out)
+    codec_defs(fs, "FileMetadataExt", out)
+    codec_defs(cs, "CASChunkSequenceHeader", out)
+    codec_defs(cs, "CASChunkSequenceEntry", out)
+    # search_on_sorted_u64s: the statements the hand model (Model/Shard.v, Section Search) transcribes
+    sb = isrc.fn_body("search_on_sorted_u64s")
+    for p in [
+        "let mut lo = 0; let mut lo_key = 0; let mut hi = num_entries + 1; let mut hi_key = u64::MAX;",
+        "(lo + ((key - lo_key) as f64 / (hi_key - lo_key) as f64 * (hi - lo) as f64).floor() as u64) .max(lo + 1) .min(hi - 1)",
+        "while lo + READ_WINDOW_SIZE < hi {",
+        "reader.seek(SeekFrom::Start(read_start + (probe_index - 1) * pair_size))?;",
+        "Ordering::Less => { hi = probe_index; hi_key = probe_key;",
+        "if candidate_probe_index + READ_WINDOW_SIZE > probe_index { let jump_amount = (READ_WINDOW_SIZE).min(probe_index - (lo + 1)); probe_index -= jump_amount; } else { probe_index = candidate_probe_index; }",
+        "for _ in (probe_index + 1)..hi { if read_u64(reader)? != key { break; } write_result(read_value_function(reader)?); }",
+        "let jump_amount = (EXPECTED_MAX_NUM_DUPLICATES).min(probe_index - (lo + 1)); probe_index -= jump_amount;",
+        "Ordering::Greater => { lo = probe_index; lo_key = probe_key;",
+        "if candidate_probe_index - probe_index <= READ_WINDOW_SIZE { probe_index = (lo + READ_WINDOW_SIZE).min(hi - 1); } else { probe_index = candidate_probe_index; }",
+        "reader.seek(SeekFrom::Start(read_start + lo * pair_size))?; while lo + 1 < hi {",
+        "if result_write_idx < result.len() { result[result_write_idx] = value; result_write_idx += 1; }",
+    ]:
+        if p not in sb:
+            raise TranslateError("search_on_sorted_u64s statement changed: %r" % p)
+    # pinned shapes the hand model transcribes
+    fs.pin("file_hash: [!0u64; 4].into(),", "file bookend")
+    cs.pin("cas_hash: [!0u64; 4].into(),", "cas bookend")
+    ut.pin("hash.deref()[0]", "truncate_hash = word 0")
+    sf.pin("if num_indices < dest_indices.len() { Ok(num_indices) } else {", "collision guard", count=2)
+    sf.pin("let mut dest_indices = [0u32; 8];", "result buffer of 8", count=1)
+    sf.pin("let mut dest_indices = [(0u32, 0u32); 8];", "chunk result buffer of 8", count=1)
+    sf.pin("chunk_lookup_combined.sort_unstable_by_key(|&(k, _)| k);", "chunk table sorted by key")
+    return "".join(out), {x.path: x.digest for x in (sf, fs, cs, isrc, ut)}
+
+
+def gen_ShardFacts():
+    im = Src(os.path.join(REPO, "mdb_shard/src/shard_in_memory.rs"))
+    out = [PRELUDE]
+    a = im.fn_body("add_cas_block")
+    b = im.fn_body("add_file_reconstruction_info")
+    ra = "self.current_shard_file_size -=" in a
+    rb = "self.current_shard_file_size -=" in b
+    if ra != rb:
+        raise TranslateError("add_cas_block and add_file_reconstruction_info disagree on subtracting a replaced record's size")
+    for body, nm in [(a, "add_cas_block"), (b, "add_file_reconstruction_info")]:
+        if ".insert(" not in body or "self.current_shard_file_size +=" not in body:
+            raise TranslateError("%s: unrecognised bookkeeping" % nm)
+    out.append("Definition size_replace_aware : bool := %s.\n" % ("true" if ra else "false"))
+    r = im.fn_body("recalculate_shard_size")
+    uses_unique = "self.chunk_hash_lookup.len()" in r
+    uses_occ = "chunks.len()" in r
+    if uses_unique == uses_occ:
+        raise TranslateError("recalculate_shard_size: cannot tell how chunk table entries are counted")
+    out.append("Definition size_per_occurrence : bool := %s.\n" % ("true" if uses_occ else "false"))
+    return "".join(out), {im.path: im.digest}
+
+
 GROUPS = {
     "GearTable": gen_GearTable,
     "ChunkConsts": gen_ChunkConsts,
     "HashConsts": gen_HashConsts,
+    "ShardLayout": gen_ShardLayout,
+    "ShardFacts": gen_ShardFacts,
 }
